@@ -72,6 +72,11 @@ class Model:
 
     def emit(self, *e):
         self.trace.append(tuple(e))
+        # high-water marks of the two queues (the Promela back-end emits bounded channels)
+        if len(self.iq) > getattr(self, 'max_iq', 0):
+            self.max_iq = len(self.iq)
+        if len(self.eq) > getattr(self, 'max_eq', 0):
+            self.max_eq = len(self.eq)
 
     def eval(self, e):
         k = e[0]
